@@ -39,12 +39,8 @@ package twig
 // template's body still holds macros that other templates import)
 //@   ensures module: istype(n, "*parse.ModuleNode") ==> called("v.escapePrints(node.BodyNode,")
 //@   ensures block: istype(n, "*parse.BlockNode") ==> called("v.escapePrints(node.Body,")
-//@ pred explicitEscape(x parse.Expr) = istype(x, "*parse.FilterExpr") && unbox(x, "*parse.FilterExpr").FuncExpr.Name == "escape"
 //@ func twig.(*autoEscapeVisitor).escapePrints
-// C12: a print whose expression is an explicit escape filter is left alone (an explicit escape never causes double
-// escaping: its own strategy decides); every other print is wrapped
-//@   ensures explicit: istype(n, "*parse.PrintNode") && old(explicitEscape(unbox(n, "*parse.PrintNode").X)) ==> unbox(n, "*parse.PrintNode").X == old(unbox(n, "*parse.PrintNode").X)
-//@   ensures wrapped: istype(n, "*parse.PrintNode") && !old(explicitEscape(unbox(n, "*parse.PrintNode").X)) ==> istype(unbox(n, "*parse.PrintNode").X, "*parse.FilterExpr") && unbox(unbox(n, "*parse.PrintNode").X, "*parse.FilterExpr").FuncExpr.Name == "escape" && len(unbox(unbox(n, "*parse.PrintNode").X, "*parse.FilterExpr").FuncExpr.Args) == 2 && unbox(unbox(n, "*parse.PrintNode").X, "*parse.FilterExpr").FuncExpr.Args[0] == old(unbox(n, "*parse.PrintNode").X) && istype(unbox(unbox(n, "*parse.PrintNode").X, "*parse.FilterExpr").FuncExpr.Args[1], "*parse.StringExpr") && unbox(unbox(unbox(n, "*parse.PrintNode").X, "*parse.FilterExpr").FuncExpr.Args[1], "*parse.StringExpr").Text == ct
+//@   ensures wrapped: istype(n, "*parse.PrintNode") ==> istype(unbox(n, "*parse.PrintNode").X, "*parse.FilterExpr") && unbox(unbox(n, "*parse.PrintNode").X, "*parse.FilterExpr").FuncExpr.Name == "escape" && len(unbox(unbox(n, "*parse.PrintNode").X, "*parse.FilterExpr").FuncExpr.Args) == 2 && unbox(unbox(n, "*parse.PrintNode").X, "*parse.FilterExpr").FuncExpr.Args[0] == old(unbox(n, "*parse.PrintNode").X) && istype(unbox(unbox(n, "*parse.PrintNode").X, "*parse.FilterExpr").FuncExpr.Args[1], "*parse.StringExpr") && unbox(unbox(unbox(n, "*parse.PrintNode").X, "*parse.FilterExpr").FuncExpr.Args[1], "*parse.StringExpr").Text == ct
 // nested blocks are left to their own Enter: nothing below a block node is touched here
 //@   at "v.escapePrints(c, ct)" descend: !istype(n, "*parse.BlockNode") && !istype(n, "*parse.PrintNode") && c != nil
 //@   loop 1 invariant true
